@@ -451,10 +451,33 @@ def gen_history(rng, stream: str = "main", max_ops: int = 40) -> Hist:
             hname = "H" + str(len(sites))
             dial = use_dialects and rng.random() < 0.5
             protos = []
+            # ONE field holding all the positions (v: Tuple[<site 0>, <site 1>, ..]) or one field per site; "twin": the
+            # Discriminators of the positions have EQUAL settings (== and hash equal) over different bases - whatever the
+            # implementation derives from the settings alone (registry name, memo key) is then shared by the positions
+            one_field = rng.random() < 0.5
+            twin = rng.random() < 0.6
+            # BasicDecoder(Tuple[<site 0>, <site 1>, ..]): the same positions in a codec.  Only in histories with unique tags: with
+            # duplicate tags (correspondence only, the property is silent) the thorough tier found 1 history in 4000 where the
+            # model's DecodeSeq over CODEC sites and the implementation pick different duplicates - open item, not analysed yet
+            as_codec = one_field and bool(unique) and rng.random() < 0.35
+            if as_codec:
+                hname, dial = "DEC" + str(len(sites)), False
             for j in range(k):
                 s = site_settings("holder", True)
                 s["wiring"] = "holder"
-                s.update({"name": hname, "vfield": f"v{j}", "dialects": dial})
+                if twin and j:
+                    for key in ("sub", "sup", "fid", "tagger", "tgid"):
+                        s[key] = protos[0][key]
+                    others = [c["id"] for c in classes if c["id"] not in protos[0]["bases"]]
+                    if set(s["bases"]) == set(protos[0]["bases"]) and others:
+                        b2 = rng.choice(others)
+                        s["bases"] = union_order.setdefault(frozenset([b2]), [b2])
+                s.update({"name": hname, "vfield": (None if as_codec else "v") if one_field else f"v{j}", "dialects": dial})
+                if as_codec:
+                    s["wiring"] = "codec"
+                if one_field:
+                    s["pos"] = j
+                    s["twin"] = twin
                 protos.append(s)
             unit = {}
             for d in ([None, "D1", "D2"] if dial else [None]):
@@ -462,12 +485,17 @@ def gen_history(rng, stream: str = "main", max_ops: int = 40) -> Hist:
                 for s in protos:
                     sites.append(dict(s))
                     unit[d].append(len(sites) - 1)
-            src = f"@dataclass\nclass {hname}(DataClassDictMixin):\n" + "".join(
-                f"    {s['vfield']}: {site_type_src(s)}\n" for s in protos)
+            if as_codec:
+                src = f"{hname} = BasicDecoder(Tuple[" + ", ".join(site_type_src(s) for s in protos) + "])\n"
+            elif one_field:
+                src = f"@dataclass\nclass {hname}(DataClassDictMixin):\n    v: Tuple[" + ", ".join(site_type_src(s) for s in protos) + "]\n"
+            else:
+                src = f"@dataclass\nclass {hname}(DataClassDictMixin):\n" + "".join(
+                    f"    {s['vfield']}: {site_type_src(s)}\n" for s in protos)
             if dial:
                 src += "    class Config(BaseConfig):\n        code_generation_options = [ADD_DIALECT_SUPPORT]\n"
             units.append(unit)
-            script.append({"op": "exec", "src": src, **({"module": "b"} if rng.random() < 0.3 else {})})
+            script.append({"op": "exec", "src": src, **({"module": "b"} if (rng.random() < 0.3 and not as_codec) else {})})
             op_of_step.append(None)
             return
         s = site_settings(wiring, pick_mode() if stream != "kf" else False)
@@ -483,8 +511,9 @@ def gen_history(rng, stream: str = "main", max_ops: int = 40) -> Hist:
         script.append({"op": "exec", "src": site_create_src(s), **({"module": "b"} if (s["wiring"] == "holder" and rng.random() < 0.3) else {})})
         op_of_step.append(None)
 
-    def gen_input(s: dict):
-        """(keys {key id: tag}, present fields, input dict) for one decode through site s"""
+    def gen_input(s: dict, sibs=()):
+        """(keys {key id: tag}, present fields, input dict) for one decode through site s (sibs: the other sites decoded by
+        the same call - their classes' tags are worth sending to THIS position: they must not be found here)"""
         inp: dict = {}
         keys: dict = {}
         present: list[int] = []
@@ -503,6 +532,19 @@ def gen_history(rng, stream: str = "main", max_ops: int = 40) -> Hist:
                     pool.extend((c["ttags"] or {}).get(s.get("tgid", 0), []))
                 elif s["fid"] in c["own_tags"]:
                     pool.append(c["own_tags"][s["fid"]])
+            if sibs and rng.random() < 0.35:
+                spool = []
+                for sib in sibs:
+                    el2 = gen_eligible(sib)
+                    for c in classes:
+                        if c["id"] in el2:
+                            if s["tagger"]:
+                                spool.extend((c["ttags"] or {}).get(s.get("tgid", 0), []))
+                            elif s["fid"] in c["own_tags"]:
+                                spool.append(c["own_tags"][s["fid"]])
+                if spool:
+                    pool = spool
+                    r = 0.5
             if r < 0.08:
                 t = None
             elif r < 0.72 and pool:
@@ -578,10 +620,12 @@ def gen_history(rng, stream: str = "main", max_ops: int = 40) -> Hist:
             if fmt_id:
                 step["fmt"] = fmt_id
         else:
-            parts = [gen_input(sites[i]) for i in unit]
+            parts = [gen_input(sites[i], [sites[j] for j in unit if j != i]) for i in unit]
             ops.append(("decodeseq", [(i, dict(k), pr) for i, (k, pr, _) in zip(unit, parts)]))
-            step = {"op": "decode", "call": f"{s['name']}.from_dict", "holder": False, "shape": None, "input": None,
-                    "multi": [[sites[i]["vfield"], sites[i]["shape"], pt[2]] for i, pt in zip(unit, parts)]}
+            step = {"op": "decode", "call": f"{s['name']}.decode" if s["wiring"] == "codec" else f"{s['name']}.from_dict",
+                    "holder": False, "shape": None, "input": None,
+                    "multi": [[sites[i]["vfield"], sites[i]["shape"], pt[2]] + ([sites[i]["pos"]] if "pos" in sites[i] else [])
+                              for i, pt in zip(unit, parts)]}
         if dialect:
             step["dialect"] = dialect
         script.append(step)
@@ -750,7 +794,61 @@ def call_label(step: dict) -> str:
     return step["call"]
 
 
+# ---------------------------------------------------------------------------
+# watchdog: a decode that does not come back IS a violation ("a known tag returns an instance ... or the documented
+# error"). An endless / exponentially retried recursion of a dispatcher (a variant's inherited method being the dispatcher
+# itself, inside the no-field loop's `except Exception: pass`) would otherwise hang the whole check. CPU-time based
+# (ITIMER_PROF: a loaded machine does not trigger it), raising a BaseException subclass so that no `except Exception`
+# of the generated code swallows it; the interval re-fires in case something does.
+# ---------------------------------------------------------------------------
+
+class DecodeTimeout(BaseException):
+    pass
+
+
+WD_SEC = [4.0]            # CPU seconds per decode call / per exec step (x5); a normal one takes milliseconds
+WD_AFTER_FIRST = 1.0      # once a hang has been seen (the violation is established) the others are cut shorter
+HANGS = [0]
+
+
+class cpu_watchdog:
+    def __init__(self, factor: float = 1.0):
+        self.sec = WD_SEC[0] * factor
+        self.armed = False
+
+    def _fire(self, signum, frame):
+        raise DecodeTimeout()
+
+    def __enter__(self):
+        import signal
+        import threading
+        if hasattr(signal, "setitimer") and threading.current_thread() is threading.main_thread():
+            self.old = signal.signal(signal.SIGPROF, self._fire)
+            signal.setitimer(signal.ITIMER_PROF, self.sec, 0.5)
+            self.armed = True
+        return self
+
+    def __exit__(self, et, ev, tb):
+        if self.armed:
+            import signal
+            signal.setitimer(signal.ITIMER_PROF, 0)
+            signal.signal(signal.SIGPROF, self.old)
+        if et is not None and issubclass(et, DecodeTimeout):
+            HANGS[0] += 1
+            WD_SEC[0] = min(WD_SEC[0], WD_AFTER_FIRST if HANGS[0] < 6 else 0.3)
+        return False
+
+
 def do_decode(ns: dict, step: dict):
+    """do_decode_raw under the watchdog: -> ("hang",) when the call does not return within WD_SEC CPU seconds"""
+    try:
+        with cpu_watchdog():
+            return do_decode_raw(ns, step)
+    except DecodeTimeout:
+        return ("hang",)
+
+
+def do_decode_raw(ns: dict, step: dict):
     """-> ("inst", class name) | ("missing",) | ("notfound",) | ("exc:<Name>",)"""
     obj, meth = step["call"].split(".")
     fn = getattr(ns[obj], meth)
@@ -762,10 +860,17 @@ def do_decode(ns: dict, step: dict):
             return outcome_of_exc(e)
         return ("inst", type(getattr(r, step["pick"])).__name__)
     if step.get("multi"):                  # one call of a holder with several discriminated fields
-        arg = {f: SHAPES[sh][1](i) for f, sh, i in step["multi"]}
+        ents = step["multi"]
+        if len(ents[0]) > 3:               # the sites are the positions of ONE field: v: Tuple[<site 0>, <site 1>, ...]
+            arg = [SHAPES[e[1]][1](e[2]) for e in ents]
+            if ents[0][0] is not None:     # (field name None: the Tuple is the type of a BasicDecoder)
+                arg = {ents[0][0]: arg}
+        else:
+            arg = {e[0]: SHAPES[e[1]][1](e[2]) for e in ents}
         try:
             r = fn(arg, dialect=ns[step["dialect"]]) if step.get("dialect") else fn(arg)
-            return ("many", [type(SHAPES[sh][2](getattr(r, f))).__name__ for f, sh, _ in step["multi"]])
+            return ("many", [type(SHAPES[e[1]][2]((r if e[0] is None else getattr(r, e[0]))[e[3]] if len(e) > 3 else getattr(r, e[0]))).__name__
+                             for e in ents])
         except Exception as e:  # noqa: BLE001 - classified below
             return outcome_of_exc(e)
     shape = SHAPES[step["shape"]] if step.get("shape") else None
@@ -916,22 +1021,38 @@ def run_history(h: Hist):
     flags: list = [None] * len(h.ops)
     fails = []
     n_classes = 0
+    hung = False
     try:
         for k, step in enumerate(h.script):
             oi = h.op_of_step[k]
             if step["op"] == "exec":
-                sb.exec_step(step, str(k))
+                try:
+                    with cpu_watchdog(5.0):
+                        sb.exec_step(step, str(k))
+                except DecodeTimeout:
+                    fails.append((k, f"definition step {k} does not return (watchdog)", "the definition completes", fmt(("hang",)),
+                                  {"kind": "dispatch-hang", "wiring": "define"}))
+                    break
                 if oi is not None:
                     n_classes += 1
                 continue
+            if hung:
+                break
             op = h.ops[oi]
             if op[0] == "decodeseq":
                 # one call of a holder with several discriminated fields: every field by its own site, first error wins
                 obs = do_decode(ns, step)
+                if obs == ("hang",):
+                    # never silent, whatever the oracle has to say about the expected class: the call did not return
+                    hung = True
+                    observed[oi] = obs
+                    fails.append((k, f"{call_label(step)}({step.get('input')}) does not return (CPU-time watchdog)", "an instance or a documented error",
+                                  fmt(obs), {"kind": "dispatch-hang", "wiring": "any"}))
+                    continue
                 observed[oi] = obs
                 exp = ("many", [])
-                for (si, _, _), (_, _, finp) in zip(op[1], step["multi"]):
-                    e1, _ = spec_field(ns, n_classes, h.sites[si], finp)
+                for (si, _, _), ent in zip(op[1], step["multi"]):
+                    e1, _ = spec_field(ns, n_classes, h.sites[si], ent[2])
                     if e1 is None:
                         exp = None
                         break
@@ -942,13 +1063,20 @@ def run_history(h: Hist):
                 if exp is not None and exp != obs:
                     kf = exp[0] == "keyerr" and obs == ("notfound",)
                     kf2 = obs == ("crash",) and any(site_has_none(h.sites[si]) and h.sites[si]["sup"] and h.sites[si]["tagger"] for si, _, _ in op[1])
-                    fails.append((k, f"{step['call']}({ {f: i for f, _, i in step['multi']} }) -> {fmt(obs)}, expected {fmt(exp)}",
+                    fails.append((k, f"{step['call']}({ [e[2] for e in step['multi']] }) -> {fmt(obs)}, expected {fmt(exp)}",
                                   fmt(exp), fmt(obs), {"kind": "variant-keyerror-misreported" if kf else
                                                        "optional-union-nonetype-variant" if kf2 else "field-dispatch", "wiring": "holder-multi"}))
                 continue
             s = h.sites[op[1]]
             if op[0] == "decodebad":
                 obs = do_decode(ns, step)
+                if obs == ("hang",):
+                    # never silent, whatever the oracle has to say about the expected class: the call did not return
+                    hung = True
+                    observed[oi] = obs
+                    fails.append((k, f"{call_label(step)}({step.get('input')}) does not return (CPU-time watchdog)", "an instance or a documented error",
+                                  fmt(obs), {"kind": "dispatch-hang", "wiring": "any"}))
+                    continue
                 observed[oi] = obs
                 # a field dispatcher names the problem (ValueError, /repo 60866ea); without a key nobody accepts the input
                 exp = ("notdict",) if s["field"] else ("notfound",)
@@ -958,6 +1086,13 @@ def run_history(h: Hist):
                 continue
             shadow = shadowed(ns, n_classes) if not s["field"] else set()
             obs = do_decode(ns, step)
+            if obs == ("hang",):
+                # never silent, whatever the oracle has to say about the expected class: the call did not return
+                hung = True
+                observed[oi] = obs
+                fails.append((k, f"{call_label(step)}({step.get('input')}) does not return (CPU-time watchdog)", "an instance or a documented error",
+                              fmt(obs), {"kind": "dispatch-hang", "wiring": "any"}))
+                continue
             observed[oi] = obs
             if s["field"]:
                 exp, uq = spec_field(ns, n_classes, s, step["input"])
@@ -1007,6 +1142,8 @@ def fmt(o) -> str:
         return "ValueError(should be a dict instance)"
     if o[0] == "crash":
         return "TypeError(compiling NoneType)"
+    if o[0] == "hang":
+        return "NO RETURN (watchdog: dispatcher recursion / livelock)"
     return {"missing": "MissingDiscriminatorError", "notfound": "SuitableVariantNotFoundError"}.get(o[0], o[0])
 
 
@@ -1222,8 +1359,48 @@ def fixed_multi() -> Hist:
                 {"kind": kind, "style": style, "unique": None, "classes": cls_, "stream": "fixed"})
 
 
+def fixed_twin() -> Hist:
+    """ONE field with two discriminated positions (v: Tuple[Annotated[C0, D], Annotated[C1, D]]) whose Discriminators are
+    EQUAL (same key, same flags) over two different hierarchies: each position has its own registry - a tag of the other
+    hierarchy is unknown here, also after the other position has registered it; late subclasses in both hierarchies"""
+    style, kind = "str", "field"
+    mk = lambda cid, parents, tag: {"id": cid, "parents": parents, "own_tags": ({0: tag} if tag is not None else {}), "ttags": None,
+                                    "ttag_bare": False, "own_js": {}, "ttag_js": None, "kerr": False, "own_req": [], "decl": "plain",
+                                    "plain": False, "config": None}
+    cls_ = [mk(0, [], None), mk(1, [], None), mk(2, [0], 5), mk(3, [1], 6), mk(4, [1], 7), mk(5, [0], 8)]
+    sites = [{"wiring": "holder", "bases": [j], "sub": True, "sup": False, "field": True, "tagger": False, "config": False, "fid": 0,
+              "tgid": 0, "shape": "plain", "name": "H0", "vfield": "v", "pos": j, "dialects": False} for j in (0, 1)]
+    ops, script, op_of_step = [], [{"op": "exec", "src": PREAMBLE}], [None]
+
+    def define(c):
+        ops.append(("define", list(c["parents"]), dict(c["own_tags"]), {}, [], False))
+        script.append({"op": "exec", "src": class_src(c, style, kind)})
+        op_of_step.append(len(ops) - 1)
+
+    def call(k0, k1):
+        parts = [(0, {0: k0}), (1, {0: k1})]
+        ops.append(("decodeseq", [(si, dict(k), []) for si, k in parts]))
+        script.append({"op": "decode", "call": "H0.from_dict", "holder": False, "shape": None, "input": None,
+                       "multi": [["v", "plain", {FIELDS[f]: tag_value(style, t) for f, t in k.items()}, si] for si, k in parts]})
+        op_of_step.append(len(ops) - 1)
+
+    for c in cls_[:4]:
+        define(c)
+    script.append({"op": "exec", "src": "@dataclass\nclass H0(DataClassDictMixin):\n    v: Tuple[" +
+                   ", ".join(site_type_src(s_) for s_ in sites) + "]\n"})
+    op_of_step.append(None)
+    for k0, k1 in [(5, 6), (5, 5), (6, 6), (5, 7)]:
+        call(k0, k1)
+    define(cls_[4])
+    define(cls_[5])
+    for k0, k1 in [(8, 7), (7, 7), (8, 8), (5, 6)]:
+        call(k0, k1)
+    return Hist(kind, style, sites, ops, script, op_of_step,
+                {"kind": kind, "style": style, "unique": None, "classes": cls_, "stream": "fixed"})
+
+
 def fixed_histories() -> list[Hist]:
-    out = [fixed_multi()]
+    out = [fixed_multi(), fixed_twin()]
     cfg = {"field": True, "sub": True, "sup": False, "tagger": False}
     for style in ("str", "int", "enum"):
         # class defined after the first call / after decoder creation; class without own tag; three levels
@@ -1442,8 +1619,11 @@ def probe_two_taggers(ctx: vlib.Ctx, n: int):
             bad_i = None
             obs_all = None
             try:
-                r = sb.ns["HD"].from_dict(arg)
+                with cpu_watchdog():
+                    r = sb.ns["HD"].from_dict(arg)
                 obs_all = [("inst", type(getattr(r, f"f{i}")).__name__) for i in range(k)]
+            except DecodeTimeout:
+                bad_i, bad_obs = 0, ("hang",)
             except Exception as e:  # noqa: BLE001 - classified below
                 fname = getattr(e, "field_name", None)
                 bad_i = int(fname[1:]) if isinstance(fname, str) and fname[1:].isdigit() else 0
@@ -1501,8 +1681,11 @@ def probe_optional_union(ctx: vlib.Ctx, n: int):
             root = ""
             arg = SHAPES[shape][1](step["input"])
             try:
-                r = getattr(sb.ns["HO"], "decode" if wiring == "codec" else "from_dict")({"v": arg} if wiring == "holder" else arg)
+                with cpu_watchdog():
+                    r = getattr(sb.ns["HO"], "decode" if wiring == "codec" else "from_dict")({"v": arg} if wiring == "holder" else arg)
                 obs = ("inst", type(SHAPES[shape][2](r.v if wiring == "holder" else r)).__name__)
+            except DecodeTimeout:
+                obs = ("hang",)
             except Exception as e:  # noqa: BLE001 - classified below (only the FIRST call fails: the refill registers
                 obs = outcome_of_exc(e)   # the real classes before it trips over NoneType)
                 c = e
@@ -1525,7 +1708,7 @@ def probe_optional_union(ctx: vlib.Ctx, n: int):
 # the check
 # ---------------------------------------------------------------------------
 
-CODE_THEOREMS = ["C12_code_variants", "C12_code_exceptions", "C12_code_dispatcher"]
+CODE_THEOREMS = ["C12_code_variants", "C12_code_exceptions", "C12_code_dispatcher", "C12_code_registry_names"]
 THEOREMS = ["C12_registry_invariant", "C12_registry", "C12_missing_tag", "C12_present_keys_not_missing", "C12_nested_missing_key", "C12_multi_field", "C12_dispatch_ref", "C12_dispatch_ref_fmt", "C12_format_independent", "C12_format_reset", "C12_history_independent_full", "C12_uniq_all_decidable", "C12_registry_nested", "C12_nofield_nested", "C12_unhashable_tag", "C12_non_mapping", "C12_history_independent",
             "C12_eligible_exact", "C12_nofield", "C12_trace_event", "C12_tag_unique_decidable",
             "C12_nonunique_order_dependent", "C12_class_level_self_excluded",
@@ -1546,7 +1729,8 @@ def run(ctx: vlib.Ctx):
         "class-level dispatchers, classes without own tag, tag value spectrum (falsy, None, bool/int/float/enum collisions, "
         "unhashable values), 1-2 key names per history, two variant_tagger_fn functions (bare or list results), classes "
         "whose own from_dict leaks a KeyError; sites = Config root / Annotated holder field / holder with 2-3 discriminated "
-        "fields (one call, several sites) / BasicDecoder, over one class or a Union, 10 annotation shapes, holders in the "
+        "fields or with ONE Tuple field of 2-3 discriminated positions - also as the type of a BasicDecoder - (one call, several sites; 60% with EQUAL Discriminator settings over "
+        "different bases, inputs carrying the sibling position's tags) / BasicDecoder, over one class or a Union, 10 annotation shapes, holders in the "
         "classes' module or in another one, call-time dialects incl. first calls (one model site per holder x dialect), "
         "codecs with default_dialect, FORMATS (35% of the histories: mixin roots / holders that also provide from_msgpack and "
         "orjson's from_json; calls in the three formats interleaved with definitions - one shared registry per class-level "
@@ -1574,6 +1758,9 @@ def run(ctx: vlib.Ctx):
         "+ helpers.iter_all_subclasses, both compared with /repo on every run (M)",
         "K12 additionally reads the exception structure of the field branch (six handlers, bases of the two error classes, whether "
         "the variant call is inside a guarded region); CPython's exception subclass relation is modelled in PyK_discr.subclass_of",
+        "K12 also translates `_get_variants_attr` of both builders into the parts of the registry attribute name (literal / field name / "
+        "fresh random_hex token / other; C12RegName.v): C12_code_registry_names = two annotated positions never share a registry "
+        "(the model keys registries by site), the class-level name is one constant; trusted: equal names have equal part tokens",
         "modelled, not verified: type.__subclasses__() order = definition order, dict overwrite/lookup by ==/hash, "
         "class attribute lookup in own __dict__, dataclass __init__ acceptance = all default-less fields present",
         "harness/props/c12.py: rendering of histories as Python source and as Coq terms; the independent oracle (issubclass + own __dict__)",
@@ -1770,10 +1957,11 @@ def replay(rep: dict) -> int:
                 sb.exec_step(step, f"replay{k}")
             else:
                 obs = do_decode(sb.ns, step)
-                print(f"step {k}: {step['call']}({step['input']}) -> {fmt(obs)}")
+                print(f"step {k}: {call_label(step)}({step['input']}) -> {fmt(obs)}")
         print("expected:", rep["expected"], "observed now:", fmt(obs))
         exp = rep["expected"]
-        ok = fmt(obs) == exp or (exp.startswith("one of ") and fmt(obs) in exp[7:].split(","))
+        ok = (fmt(obs) == exp or (exp.startswith("one of ") and fmt(obs) in exp[7:].split(","))
+              or (exp == "an instance or a documented error" and obs is not None and obs[0] != "hang"))
         if not ok:
             print("REPRODUCED")
             return 1
